@@ -131,6 +131,7 @@ func ZZ_C14_Seq() {
 			if op == 1 {
 				ttl = 1 << 29
 			}
+			_, residentBefore := s.shards[zzIndex(s, 1)].hashmap[1]
 			ok := s.Set(1, h.next, 1, time.Duration(ttl))
 			vfAssert("set-accepted", ok)
 			// ghost for the known-finding region: key 1 was promoted from the secondary tier earlier and is now updated
@@ -143,7 +144,9 @@ func ZZ_C14_Seq() {
 			h.live, h.val = true, h.next
 			if ttl != 0 {
 				h.deadline = h.now + ttl
-			} else if h.deadline != 0 && h.deadline <= h.now {
+			} else if !residentBefore || (h.deadline != 0 && h.deadline <= h.now) {
+				// a Set without TTL keeps the deadline of a live resident entry; a key that is not in memory
+				// (it may have a copy in the secondary tier) gets a fresh entry without deadline
 				h.deadline = 0
 			}
 			if ttl == 0 {
@@ -387,6 +390,106 @@ func ZZ_C15_PoolRecycled() {
 	set(5, 501, "s6")
 	v3, hit3, _ := s.GetWithSecodary(3)
 	vfAssert("recycled-entry-value-not-lost", hit3 && v3 == 301)
+}
+
+// ZZ_C14_StaleAfterExpiry: an older copy lives in the secondary tier, a newer value with a TTL is set (memory
+// only) and expires: the older copy must not come back, neither before nor after the wheel collects the entry.
+func ZZ_C14_StaleAfterExpiry() {
+	h := zzHybNew(1, false)
+	s := h.s
+	s.Set(1, 101, 1, 0)
+	h.settle()
+	s.Set(2, 201, 1, 0) // key 1 demoted, no deadline
+	h.settle()
+	_, demoted := h.sec.m[1]
+	vfAssert("older-copy-in-secondary", demoted)
+	s.Set(1, 102, 1, time.Duration(1<<29)) // newer value, memory only
+	h.settle()
+	d := vfI64("advance")
+	vfAssume(d >= 0)
+	vfAssume(d <= 1<<31)
+	vfClockSet(h.origin + d)
+	s.timerwheel.clock.RefreshNowCache()
+	vfReach("read")
+	v, hit, err := s.GetWithSecodary(1)
+	vfAssert("before-collection:never-older-than-last-completed-set", err == nil && vfImplies(hit, vfAnd(v == 102, d < 1<<29)))
+	h.settle()
+	vfFireTickers() // the wheel collects what has expired
+	h.settle()
+	v, hit, err = s.GetWithSecodary(1)
+	vfAssert("after-collection:never-older-than-last-completed-set", err == nil && vfImplies(hit, vfAnd(v == 102, d < 1<<29)))
+}
+
+// ZZ_C14_StaleAfterLostDemotion: the newer value is evicted but its demotion is dropped (full hand-off queue or
+// admission probability below 1): the older copy in the secondary tier must not be served either.
+func ZZ_C14_StaleAfterLostDemotion() {
+	h := zzHybNew(1, false) // FULL=1 or PROB=2 from the configuration
+	s := h.s
+	s.Set(1, 101, 1, 0)
+	h.settle()
+	s.Set(2, 201, 1, 0) // key 1 demoted (or dropped)
+	h.settle()
+	s.Set(1, 102, 1, 0) // newer value; key 2 leaves memory
+	h.settle()
+	s.Set(2, 202, 1, 0) // key 1 leaves memory again: demoted or dropped
+	h.settle()
+	vfReach("evicted-again")
+	v, hit, err := s.GetWithSecodary(1)
+	vfAssert("never-older-than-last-completed-set", err == nil && vfImplies(hit, v == 102))
+	v2, hit2, err2 := s.GetWithSecodary(2)
+	vfAssert("other-key-never-older-than-last-completed-set", err2 == nil && vfImplies(hit2, v2 == 202))
+}
+
+// ZZ_C14_SetVsGet: a hybrid Get that missed in memory races a Set of the same key whose older copy lives in the
+// secondary tier: once both have returned, the older copy is not what the cache holds.
+func ZZ_C14_SetVsGet() {
+	h := zzHybNew(1, false)
+	s := h.s
+	s.Set(1, 101, 1, 0)
+	h.settle()
+	s.Set(2, 201, 1, 0) // key 1 demoted
+	h.settle()
+	vfSetPreemptions(vfConfig("PRE", 1))
+	done := make(chan int, 2)
+	var gv uint64
+	var ghit bool
+	go func() { gv, ghit, _ = s.GetWithSecodary(1); done <- 1 }()
+	go func() { s.Set(1, 102, 1, 0); done <- 1 }()
+	<-done
+	<-done
+	vfSetPreemptions(0)
+	vfReach("both-returned")
+	vfAssert("racing-get-sees-old-or-new", vfImplies(ghit, gv == 101 || gv == 102))
+	v, hit, err := s.GetWithSecodary(1)
+	vfAssert("completed-set-not-undone-by-racing-promotion", err == nil && vfImplies(hit, v == 102))
+	h.settle()
+	v, hit, err = s.GetWithSecodary(1)
+	vfAssert("completed-set-not-undone-after-drain", err == nil && vfImplies(hit, v == 102))
+}
+
+// ZZ_C14_UpdateVsEvict: a promoted (clean) entry is overwritten by one client while another client's Set evicts
+// it: whichever way the race goes, the older copy in the secondary tier is not served afterwards.
+func ZZ_C14_UpdateVsEvict() {
+	h := zzHybNew(1, false)
+	s := h.s
+	s.Set(1, 101, 1, 0)
+	h.settle()
+	s.Set(2, 201, 1, 0) // key 1 demoted
+	h.settle()
+	v0, hit0, _ := s.GetWithSecodary(1) // promoted: memory holds a clean copy
+	vfAssert("promoted", hit0 && v0 == 101)
+	h.settle()
+	vfSetPreemptions(vfConfig("PRE", 1))
+	done := make(chan int, 2)
+	go func() { s.Set(1, 102, 1, 0); done <- 1 }()
+	go func() { s.Set(2, 202, 1, 0); done <- 1 }()
+	<-done
+	<-done
+	vfSetPreemptions(0)
+	h.settle()
+	vfReach("both-returned")
+	v, hit, err := s.GetWithSecodary(1)
+	vfAssert("never-older-than-last-completed-set", err == nil && vfImplies(hit, v == 102))
 }
 
 // ZZ_C14_DeleteVsGet: a hybrid Delete of a key that lives in the secondary tier races a hybrid Get of the same key.
